@@ -546,6 +546,9 @@ fn fs_scenarios(ctx: &mut Ctx, funcs: &BTreeMap<String, Arc<Function>>, cfg: &Cf
         ("fs.rename", vec![sv(&p("file.txt")), sv(&p("file.txt"))], true, Box::new(|r, _| (std::fs::read_to_string(r.join("file.txt")).ok().as_deref() != Some("hello")).then(|| "renaming a file onto itself changed it".to_string()))),
         ("fs.copy_file", vec![sv(&p("file.txt")), sv(&p("bin.dat"))], true, Box::new(|r, _| (std::fs::read(r.join("bin.dat")).ok().as_deref() != Some(b"hello".as_slice()) || !r.join("file.txt").exists()).then(|| "bin.dat should now hold a copy of file.txt".to_string()))),
         ("fs.copy_file", vec![sv(&p("missing.txt")), sv(&p("file.txt"))], false, none()),
+        ("fs.copy_file", vec![sv(&p("bin.dat")), sv(&p("bin_copy.dat"))], true, Box::new(|r, _| (std::fs::read(r.join("bin_copy.dat")).ok().as_deref() != Some([0xffu8, 0xfe, 0x00].as_slice())).then(|| "bin_copy.dat should hold the three bytes of bin.dat".to_string()))),
+        ("fs.rename", vec![sv(&p("bin.dat")), sv(&p("bin_moved.dat"))], true, Box::new(|r, _| (std::fs::read(r.join("bin_moved.dat")).ok().as_deref() != Some([0xffu8, 0xfe, 0x00].as_slice())).then(|| "bin_moved.dat should hold the three bytes of bin.dat".to_string()))),
+        ("fs.remove_file", vec![sv(&p("bin.dat"))], true, exists("bin.dat", false)),
         ("fs.copy_file", vec![sv(&p("dir_empty")), sv(&p("file.txt"))], false, none()),
         ("fs.create_dir", vec![sv(&p("file.txt"))], false, none()),
         ("fs.create_dir_all", vec![sv(&p("file.txt"))], false, none()),
@@ -603,6 +606,35 @@ fn fs_scenarios(ctx: &mut Ctx, funcs: &BTreeMap<String, Arc<Function>>, cfg: &Cf
 
 fn cgetline_scenarios(ctx: &mut Ctx) {
     let Ok(exe) = std::env::current_exe() else { return };
+    // several lines written at once, read by three successive calls
+    for (name, input, want) in [
+        ("three-lines", b"alpha\nbeta\ngamma\n".to_vec(), "\"alpha\" | \"beta\" | \"gamma\""),
+        ("three-lines-last-unterminated", b"alpha\n\ngamma".to_vec(), "\"alpha\" | \"\" | \"gamma\""),
+        ("one-line-then-end", b"only\n".to_vec(), "\"only\" | \"\" | \"\""),
+        ("long-lines", [vec![b'x'; 9000], vec![b'\n'], vec![b'y'; 9000], vec![b'\n'], vec![b'z'; 10]].concat(), ""),
+    ] {
+        let child = std::process::Command::new(&exe)
+            .args(["C18", "--out", "/dev/null", "--opt", "child=cgetline3"])
+            .stdin(std::process::Stdio::piped())
+            .stdout(std::process::Stdio::piped())
+            .stderr(std::process::Stdio::null())
+            .spawn();
+        let Ok(mut child) = child else {
+            ctx.rep.inconclusive("cgetline-child-failed-to-start");
+            continue;
+        };
+        if let Some(mut stdin) = child.stdin.take() {
+            let _ = stdin.write_all(&input);
+        }
+        let Ok(out) = child.wait_with_output() else { continue };
+        let text = String::from_utf8_lossy(&out.stdout).trim().to_string();
+        ctx.rep.evaluations += 1;
+        ctx.rep.count("cgetline-successive-calls");
+        let want = if name == "long-lines" { format!("\"{}\" | \"{}\" | \"{}\"", "x".repeat(9000), "y".repeat(9000), "z".repeat(10)) } else { want.to_string() };
+        if text != want {
+            ctx.rep.violation(&format!("c18:io.cgetline:successive:{name}"), &format!("three successive cgetline calls on stdin `{name}` returned {}, documented {}", truncate(&text, 200), truncate(&want, 200)), "c18", name);
+        }
+    }
     let cases: Vec<(&str, Vec<u8>, Option<&str>)> = vec![
         ("empty", vec![], Some("\"\"")),
         ("one-line", b"hello\nworld\n".to_vec(), Some("\"hello\"")),
@@ -651,12 +683,28 @@ pub fn run(cfg: &Cfg, rep: &mut Report) {
         let Some(Variable::Struct(stdv)) = interp.get_variable("std").cloned() else { return };
         let Some(Variable::Struct(io)) = stdv.get("io").cloned() else { return };
         let Some(Variable::Function(fun)) = io.get("cgetline").cloned() else { return };
-        let r = real::guarded(|| fun.create_call(vec![]).map(|c| c.exec()));
+        let r = real::guarded(|| fun.clone().create_call(vec![]).map(|c| c.exec()));
         match r {
             Ok(Ok(Ok(v))) => println!("{}", canon(&v)),
             Ok(other) => println!("ERR {other:?}"),
             Err(p) => println!("PANIC {} {}", p.site(), p.msg),
         }
+        return;
+    }
+    if cfg.extra.get("child").map(String::as_str) == Some("cgetline3") {
+        // child: three successive calls on the inherited stdin (all of it may already be waiting in the pipe)
+        let Some(Variable::Struct(stdv)) = interp.get_variable("std").cloned() else { return };
+        let Some(Variable::Struct(io)) = stdv.get("io").cloned() else { return };
+        let Some(Variable::Function(fun)) = io.get("cgetline").cloned() else { return };
+        let mut parts = Vec::new();
+        for _ in 0..3 {
+            match real::guarded(|| fun.clone().create_call(vec![]).map(|c| c.exec())) {
+                Ok(Ok(Ok(v))) => parts.push(canon(&v)),
+                Ok(other) => parts.push(format!("ERR {other:?}")),
+                Err(p) => parts.push(format!("PANIC {} {}", p.site(), p.msg)),
+            }
+        }
+        println!("{}", parts.join(" | "));
         return;
     }
     let deadline = Deadline::new(cfg.budget_s);
